@@ -145,6 +145,8 @@ func observers() []observer {
 	return obs
 }
 
+var pairDone = map[string]bool{}
+
 func runC17(cfg *config) *Report {
 	rep := newReport("C17", cfg.tier, cfg.seed)
 	r := newRng(cfg.seed + 17000)
@@ -181,6 +183,19 @@ func runC17(cfg *config) *Report {
 				setField(recs[k], w.Src, FV{K: 'S', S: [][]byte{[]byte("\x01~"), nil, []byte("  x  "), []byte("this value is much too long for its field, really")}[r.Intn(4)]})
 			}
 			kind = "spoiled " + names[k] + "." + w.Src
+			if i%2 == 1 {
+				// several members of the same record wrong at once (which of them a verdict names must not vary)
+				for extra := 0; extra < 4; extra++ {
+					w2 := L.Write[1+r.Intn(len(L.Write)-1)]
+					switch kindOfConv(w2.Conv) {
+					case 'I':
+						setField(recs[k], w2.Src, FV{K: 'I', I: 5 + extra})
+					case 'S':
+						setField(recs[k], w2.Src, FV{K: 'S', S: []byte("\x01~")})
+					}
+				}
+				kind = "spoiled " + names[k] + " (several members)"
+			}
 		}
 		rep.count("file:" + kind[:min(7, len(kind))])
 		seqLen := 6 + r.Intn(8)
@@ -195,6 +210,9 @@ func runC17(cfg *config) *Report {
 			r1 := o.run(f)
 			after := snapshot(f, false)
 			r2 := o.run(f)
+			for rep2 := 0; rep2 < 4 && r2 == r1; rep2++ {
+				r2 = o.run(f)
+			}
 			if before != after {
 				rep.violate(Violation{Key: "C17:observer-mutates:" + o.name + ":" + diffField(before, after), What: o.name + " modified the file (" + kind + "): " + firstSnapDiff(before, after),
 					Replay: map[string]any{"tree": dumpFile(f), "observer": o.name, "file": kind, "sequence": seq}})
@@ -202,6 +220,56 @@ func runC17(cfg *config) *Report {
 			if r1 != r2 {
 				rep.violate(Violation{Key: "C17:observer-not-repeatable:" + o.name, What: o.name + " returned different results on an unchanged file (" + kind + ")",
 					Replay: map[string]any{"tree": dumpFile(f), "observer": o.name, "file": kind}})
+			}
+		}
+		if i%3 == 1 {
+			// every record of the file with ALL its members wrong at once: which member the verdict names is a function
+			// of the record, not of the call
+			for _, rec := range writerOrder(f) {
+				goName := strings.TrimPrefix(fmt.Sprintf("%T", rec), "*imagecashletter.")
+				L := layoutOf(goName)
+				if L == nil {
+					continue
+				}
+				if pairDone[goName] {
+					continue
+				}
+				pairDone[goName] = true
+				// every PAIR of members wrong at once, the others as they are: which of the two the verdict names is a
+				// function of the record, not of the call
+				var elig []WField
+				for wi, w := range L.Write {
+					k := kindOfConv(w.Conv)
+					if wi == 0 || w.Conv == "lit" || w.Width == 0 || strings.HasPrefix(w.Src, "reserved") || w.Src[0] < 'A' || w.Src[0] > 'Z' || (k != 'I' && k != 'S') {
+						continue
+					}
+					elig = append(elig, w)
+				}
+				wrong := func(w WField) FV {
+					if kindOfConv(w.Conv) == 'I' {
+						return FV{K: 'I', I: 7}
+					}
+					return FV{K: 'S', S: []byte("\x01~")}
+				}
+				for a := 0; a < len(elig); a++ {
+					for b := a + 1; b < len(elig); b++ {
+						oa, ob := getField(rec, elig[a].Src, kindOfConv(elig[a].Conv)), getField(rec, elig[b].Src, kindOfConv(elig[b].Conv))
+						setField(rec, elig[a].Src, wrong(elig[a]))
+						setField(rec, elig[b].Src, wrong(elig[b]))
+						first := realValidate(rec)
+						rep.Evaluations++
+						for k := 0; k < 7; k++ {
+							if again := realValidate(rec); again != first {
+								rep.violate(Violation{Key: "C17:verdict-not-repeatable:" + goName, What: fmt.Sprintf("Validate on an unchanged %s record whose %s and %s are wrong answered %q, then %q", goName, elig[a].Src, elig[b].Src, first, again),
+									Replay: map[string]any{"record": goName, "members": []string{elig[a].Src, elig[b].Src}, "first": first, "again": again}})
+								break
+							}
+						}
+						setField(rec, elig[a].Src, oa)
+						setField(rec, elig[b].Src, ob)
+					}
+				}
+				rep.count("pairs-of-wrong-members:" + goName)
 			}
 		}
 		rep.nontrivial(base + fmt.Sprint(seq))
